@@ -249,12 +249,8 @@ theorem storHandle_offset_some (be : Backend) (c : Bytes) (v : UpVerb) (k : Nat)
     storHandle be (some c) v k = some ⟨c, k⟩ := by
   simp [storHandle, fileMode, hk, openFile, BytesIO.ofBytes, BytesIO.seek]
 
-theorem storHandle_offset_none_memory (v : UpVerb) (k : Nat) (hk : k ≠ 0) :
-    storHandle .memory none v k = some ⟨[], k⟩ := by
-  simp [storHandle, fileMode, hk, openFile, BytesIO.ofBytes, BytesIO.seek]
-
-theorem storHandle_offset_none_posix (v : UpVerb) (k : Nat) (hk : k ≠ 0) :
-    storHandle .posix none v k = none := by
+theorem storHandle_offset_none (be : Backend) (v : UpVerb) (k : Nat) (hk : k ≠ 0) :
+    storHandle be none v k = none := by
   simp [storHandle, fileMode, hk, openFile]
 
 /-- a single write at `k` against the arithmetic specification -/
@@ -268,7 +264,7 @@ theorem writeAt_spec (c : Bytes) (v : UpVerb) (k : Nat) (hk : k ≠ 0) (payload 
 
 /-- the upload result equals the specification, for ANY sequence of read results, whenever the open succeeds -/
 theorem storResult_eq_spec (be : Backend) (old : Option Bytes) (v : UpVerb) (k : Nat) (reads : List Bytes)
-    (hopen : ¬ (be = .posix ∧ old = none ∧ k ≠ 0)) :
+    (hopen : ¬ (old = none ∧ k ≠ 0)) :
     storResult be old v k reads = some (storSpec (old.getD []) v k (iterByBlock reads).flatten) := by
   rw [storResult_eq_writeAt]
   by_cases hk : k = 0
@@ -278,10 +274,7 @@ theorem storResult_eq_spec (be : Backend) (old : Option Bytes) (v : UpVerb) (k :
     | appe => simp [storHandle_zero_appe, writeAt_end, storSpec]
   · cases old with
     | some c => simp [storHandle_offset_some be c v k hk, writeAt_spec c v k hk]
-    | none =>
-      cases be with
-      | memory => simp [storHandle_offset_none_memory v k hk, writeAt_spec [] v k hk]
-      | posix => exact absurd ⟨rfl, rfl, hk⟩ hopen
+    | none => exact absurd ⟨rfl, hk⟩ hopen
 
 /-! ### event order -/
 
